@@ -93,6 +93,13 @@ Qed.
 Lemma g_keep_inls_eq l : filter g_inl_keep l = keep_inls true l.
 Proof. unfold keep_inls. apply filter_ext. intros e. apply Z.gtb_ltb. Qed.
 
+Lemma g_win_range_eq w : g_win_range w = win_range w.
+Proof. reflexivity. Qed.
+Lemma g_win_insert_eq acc w : g_win_insert acc w = win_insert acc w.
+Proof. reflexivity. Qed.
+Lemma g_merge_step_eq {V} (eqb : V -> V -> bool) acc rv : g_merge_step eqb acc rv = merge_step eqb acc rv.
+Proof. reflexivity. Qed.
+
 Lemma g_front_ends_eq :
   (forall a, g_gsaa_instr a = a) /\ g_gsaa_base = 0 /\ (forall i, g_module_key i = i) /\
   (forall o, g_frame_inlines (o_inl o) = frame_inlines o).
@@ -112,6 +119,8 @@ Lemma source_tie :
   (forall ls, g_line_entries ls = line_entries ls) /\
   (forall l, filter g_inl_keep l = keep_inls true l) /\
   (forall e, g_inl_key e = inl_key e) /\ (forall q, g_pub_key q = pub_key q) /\
+  (forall acc w, g_win_insert acc w = win_insert acc w) /\
+  (forall V (eqb : V -> V -> bool) acc rv, g_merge_step eqb acc rv = merge_step eqb acc rv) /\
   (forall a, g_gsaa_instr a = a) /\ g_gsaa_base = 0 /\ (forall i, g_module_key i = i) /\
   (forall o, g_frame_inlines (o_inl o) = frame_inlines o).
 Proof.
@@ -120,5 +129,5 @@ Proof.
   split; [exact g_depth_start_eq|]. split; [exact g_find_nearest_public_eq|].
   split; [exact g_prev_func_eq|]. split; [exact g_param_size_eq|]. split; [exact g_func_range_eq|].
   split; [exact g_line_entries_eq|]. split; [exact g_keep_inls_eq|]. split; [exact g_inl_key_eq|].
-  split; [exact g_pub_key_eq|]. exact g_front_ends_eq.
+  split; [exact g_pub_key_eq|]. split; [exact g_win_insert_eq|]. split; [exact @g_merge_step_eq|]. exact g_front_ends_eq.
 Qed.
